@@ -72,6 +72,7 @@ Kinds == {"RDMs", "Dataset", "TemporalDataset", "ModelFixed", "ModelWeighted", "
           "ModelInterpolate", "Result"}
 Broken == {"no_remove",        \* overwrite does not remove / truncate the old file
            "no_guard",         \* the hdf5 writer does not refuse an existing path
+           "refusal_cleans_up",\* a refused save deletes the existing file
            "pkl_refuses",      \* the pkl writer refuses an existing path like hdf5 does
            "writer_marks"}     \* the pkl version stamp is put into the object's own dict
 
@@ -128,7 +129,7 @@ Removed(file, e) ==
 \* stage 3: the writers.  Result: [out, file]
 WriteHdf5(file, e, cells) ==
   IF e.mode = "path" /\ file.ex /\ Design # "no_guard"
-  THEN [out |-> "Refused", file |-> file]                     \* ValueError('File already exists!')
+  THEN [out |-> "Refused", file |-> IF Design = "refusal_cleans_up" THEN Absent ELSE file]   \* ValueError('File already exists!')
   ELSE IF KeysOf(file.cells) \cap KeysOf(cells) # {}
        THEN [out |-> "Error", file |-> file]                  \* h5py: name already exists
        ELSE [out |-> "Ok", file |-> [ex |-> TRUE, fmt |-> "hdf5", cells |-> file.cells \cup cells]]
